@@ -621,6 +621,13 @@ fn wait_until<F: Fn() -> bool>(secs: u64, f: F) -> bool {
 /// sentinel line at the end and stops the program once the sentinel's record has been printed.
 /// Ok(delivered lines) or Err(machinery problem)
 fn cli_follow_case(stdin_mode: bool, head: bool, old: &[u8], appended: &[Vec<u8>]) -> Result<Option<Vec<String>>, String> {
+    let raw = cli_follow_raw(stdin_mode, head, old, appended, "CREATE TABLE t(line = '(?s)^(.*)$', line[1] => x TEXT);", "SELECT input FROM t", "json", "__end__", "__end__")?;
+    Ok(raw.map(|lines| lines.iter().filter(|l| !l.is_empty()).map(|l| serde_json::from_str::<J>(l).ok().and_then(|j| j["input"].as_str().map(|s| s.to_string())).unwrap_or_else(|| format!("<{}>", l))).collect()))
+}
+
+/// the raw standard output lines of the program before the record of the sentinel line (which is appended last and
+/// whose record contains `mark`); when the sentinel's record does not appear within 15 s a last pseudo line says so
+pub fn cli_follow_raw(stdin_mode: bool, head: bool, old: &[u8], appended: &[Vec<u8>], def: &str, stmt: &str, format: &str, sentinel: &str, mark: &str) -> Result<Option<Vec<String>>, String> {
     use std::io::{BufRead, Write};
     let bin = format!("{}/target/cli/release/sqlgrep", verif_dir());
     if !std::path::Path::new(&bin).exists() {
@@ -631,7 +638,7 @@ fn cli_follow_case(stdin_mode: bool, head: bool, old: &[u8], appended: &[Vec<u8>
     let id = CNT.fetch_add(1, std::sync::atomic::Ordering::Relaxed);
     let defp = format!("{}/c10_cli_def_{}_{}.txt", dir, std::process::id(), id);
     let datap = format!("{}/c10_cli_data_{}_{}.log", dir, std::process::id(), id);
-    std::fs::write(&defp, "CREATE TABLE t(line = '(?s)^(.*)$', line[1] => x TEXT);").map_err(|e| e.to_string())?;
+    std::fs::write(&defp, def).map_err(|e| e.to_string())?;
     std::fs::write(&datap, old).map_err(|e| e.to_string())?;
     let mut cmd = std::process::Command::new(&bin);
     cmd.args(["-d", &defp]);
@@ -644,7 +651,7 @@ fn cli_follow_case(stdin_mode: bool, head: bool, old: &[u8], appended: &[Vec<u8>
     if head {
         cmd.arg("--head");
     }
-    cmd.args(["--format", "json", "-c", "SELECT input FROM t"]).stdout(std::process::Stdio::piped()).stderr(std::process::Stdio::null());
+    cmd.args(["--format", format, "-c", stmt]).stdout(std::process::Stdio::piped()).stderr(std::process::Stdio::null());
     let mut child = cmd.spawn().map_err(|e| e.to_string())?;
     let pid = child.id();
     let lines: Arc<std::sync::Mutex<Vec<String>>> = Arc::new(std::sync::Mutex::new(Vec::new()));
@@ -675,17 +682,17 @@ fn cli_follow_case(stdin_mode: bool, head: bool, old: &[u8], appended: &[Vec<u8>
         size += c.len() as u64;
         wait_until(10, || at_end(size));
     }
-    f.write_all(b"__end__\n").map_err(|e| e.to_string())?;
-    let seen = wait_until(15, || lines.lock().unwrap().iter().any(|l| l.contains("__end__")));
+    f.write_all(format!("{}\n", sentinel).as_bytes()).map_err(|e| e.to_string())?;
+    let seen = wait_until(15, || lines.lock().unwrap().iter().any(|l| l.contains(mark)));
     cleanup(&mut child);
     let _ = reader.join();
-    let got: Vec<String> = lines.lock().unwrap().iter().filter(|l| !l.is_empty()).map(|l| serde_json::from_str::<J>(l).ok().and_then(|j| j["input"].as_str().map(|s| s.to_string())).unwrap_or_else(|| format!("<{}>", l))).collect();
+    let got: Vec<String> = lines.lock().unwrap().clone();
     if !seen {
         let mut g = got;
         g.push("<the sentinel line appended last was not delivered within 15 s>".into());
         return Ok(Some(g));
     }
-    Ok(Some(got.into_iter().take_while(|l| l != "__end__").collect()))
+    Ok(Some(got.into_iter().take_while(|l| !l.contains(mark)).collect()))
 }
 
 fn cli_follow_layer(col: &Collector) {
